@@ -229,6 +229,7 @@ func (r *c27Run) Main(s *sim.Sim) {
 		}
 		s.Probe("publish-progress")
 	}
+	s.Teardown()
 	closeDone := make(chan struct{})
 	go func() { cl.Close(ctx); close(closeDone) }()
 	select {
